@@ -375,4 +375,47 @@ theorem C20_restore_witness :
 theorem C20_dispatch_proc (out err : List Nat) (code : Nat) :
     (dispatchProc out err code).ret = code ∧ (dispatchProc out err code).out = out ∧ (dispatchProc out err code).err = err := ⟨rfl, rfl, rfl⟩
 
+theorem find_filter_other (e : Env) (k k' : Nat) (h : k' ≠ k) :
+    (e.filter (fun x => x.1 ≠ k)).find? (fun x => x.1 = k') = e.find? (fun x => x.1 = k') := by
+  induction e with
+  | nil => rfl
+  | cons x xs ih =>
+    simp only [List.filter_cons]
+    split
+    · rw [List.find?_cons, List.find?_cons, ih]
+    · rename_i hx
+      have hx' : x.1 = k := by simpa using hx
+      have hk' : decide (x.1 = k') = false := by
+        simp only [decide_eq_false_iff_not]; intro e; exact h (by rw [← e, hx'])
+      rw [ih, List.find?_cons, hk']
+
+theorem envGet_envSet (e : Env) (k v k' : Nat) :
+    envGet (envSet e k v) k' = if k' = k then some v else envGet e k' := by
+  unfold envGet envSet
+  by_cases h : k' = k
+  · subst h; simp
+  · have h' : ¬ k = k' := fun x => h x.symm
+    simp only [List.find?_cons, h', decide_false, if_neg h]
+    rw [find_filter_other e k k' h]
+
+theorem envGet_setMany_other (r : List (Nat × Nat)) (base : Env) (k : Nat) (h : ∀ kv ∈ r, kv.1 ≠ k) :
+    envGet (setMany base r) k = envGet base k := by
+  induction r generalizing base with
+  | nil => rfl
+  | cons kv kvs ih =>
+    simp only [setMany, List.foldl_cons]
+    have := ih (envSet base kv.1 kv.2) (fun x hx => h x (List.mem_cons_of_mem _ hx))
+    simp only [setMany] at this
+    rw [this, envGet_envSet, if_neg (fun e => h kv List.mem_cons_self e.symm)]
+
+/-- **process and shell requests do not see each other's environment**: on a worker that serves any
+    stream of such requests, the child of request `i` sees the worker's base environment updated by
+    request `i`'s own variables only - a variable no request `i` names has its base value, whatever
+    earlier requests set -/
+theorem C20_proc_env (base : Env) (reqs : List (List (Nat × Nat))) (i : Nat) (r : List (Nat × Nat))
+    (hr : reqs[i]? = some r) :
+    (procEnvs base reqs)[i]? = some (setMany base r)
+    ∧ ∀ k, (∀ kv ∈ r, kv.1 ≠ k) → envGet (setMany base r) k = envGet base k := by
+  refine ⟨by simp [procEnvs, hr], fun k hk => envGet_setMany_other r base k hk⟩
+
 end RPVerif.C20
